@@ -215,7 +215,7 @@ CHECKS = {
        "schedule of publications by either side and deliveries - nothing fails, exactly-once delivery both ways, both accounts full "
        "again (C01_fresh_v5_endpoints_interoperate, Conn/PairHandshake5.v); the same for v3.1.1 (C01_fresh_v311_endpoints_interoperate); and with the PERSISTENT handshake the lossy invariant: from fresh objects "
        "any schedule of publications, deliveries and transport losses succeeds with QoS 2 exactly once and QoS 1 at least once "
-       "(C01_fresh_endpoints_interoperate_across_loss, Conn/PairHandshakeP.v); "
+       "(C01_fresh_endpoints_interoperate_across_loss, and _server_publishes for the other direction, Conn/PairHandshakeP.v); "
        "(1m) MANUAL RESPONSES: with auto_pub_response off on both endpoints the library requests nothing itself, "
        "each acknowledgement the application sends goes through send() to the same code, and QoS 1 / QoS 2 exchanges complete from every "
        "admissible pair of states (C01_pair_qos1_completes_manual, C01_pair_qos2_completes_manual, Conn/PairManual.v), and for v5.0 with the "
